@@ -1,8 +1,14 @@
 (* Harness entry points for Model/Message.v.
-   (3 1 legacy mtype er au ((code val)...) body serial fds) -> (1 "hdr" "pad" "body" fds) | (0 err)
+   (3 1 legacy mtype er au ((code val)...) body next fds) -> (1 "hdr" "pad" "body" fds next') | (0 err next')
+       next = DBusMessage._nextSerial before the call, next' after it
    (3 2 legacy_flags "raw" fds) -> (1 mtype serial er au ((code val)...) (body?)) | (0 err)
-   (3 3 le "raw") -> frame length *)
-From Tx Require Import Lib.Base Lib.Sexp Model.PyVal Model.Marshal Model.Message Model.OpsC01.
+   (3 3 le "raw") -> frame length
+   specification side (Spec/MsgSpec.v), the oracle:
+   (3 4 le type flags serial ((code ty wval)...) (tys) (wvals) (fds))
+       -> ("header" "padding" "body" type serial expect_reply auto_start ((code val)...) (body?))
+      the encoding msg_enc of the wire message and what a receiver must recover from it *)
+From Tx Require Import Lib.Base Lib.Sexp Model.PyVal Model.Marshal Model.Message Model.OpsC01 Model.OpsSpec
+  Spec.WireSpec Spec.Readback Spec.MsgSpec.
 Local Open Scope Z_scope.
 
 Definition attr_pair_of_sexp (s : sexp) : option (attr * pyval) :=
@@ -24,9 +30,9 @@ Definition op (args : list sexp) : sexp :=
       match as_bool legacy, as_bool er, as_bool au, map_opt attr_pair_of_sexp attrs, pv_of_sexp body, fds_of_sexp fds with
       | Some lg, Some er', Some au', Some attrs', Some body', Some f =>
           let fuel := (marshal_fuel header_format body' + 40)%nat in
-          match construct lg fuel (Z.to_N mt) er' au' attrs' body' serial f with
-          | Ok (h, p, b, f') => SList [SNum 1; SBytes h; SBytes p; SBytes b; fds_to_sexp f']
-          | Err e => SList [SNum 0; SNum (err_code e)]
+          match construct_st lg fuel (Z.to_N mt) er' au' attrs' body' serial f with
+          | (Ok (h, p, b, f'), next) => SList [SNum 1; SBytes h; SBytes p; SBytes b; fds_to_sexp f'; SNum next]
+          | (Err e, next) => SList [SNum 0; SNum (err_code e); SNum next]
           end
       | _, _, _, _, _, _ => bad
       end
@@ -41,6 +47,26 @@ Definition op (args : list sexp) : sexp :=
           | Err e => SList [SNum 0; SNum (err_code e)]
           end
       | _, _ => bad
+      end
+  | [SNum 4; le; SNum mt; SNum flags; SNum serial; SList fields; SList ts; SList ws; SList fds] =>
+      let field_of (f : sexp) :=
+        match f with
+        | SList [SNum c; t; w] =>
+            match ty_of_sexp t, wv_of_sexp w with
+            | Some t', Some w' => Some (c, t', w')
+            | _, _ => None
+            end
+        | _ => None
+        end in
+      match as_bool le, map_opt field_of fields, map_opt ty_of_sexp ts, map_opt wv_of_sexp ws, map_opt pv_of_sexp fds with
+      | Some le', Some fields', Some ts', Some ws', Some fds' =>
+          let m := {| s_le := le'; s_type := mt; s_flags := flags; s_serial := serial;
+                      s_fields := fields'; s_body_ts := ts'; s_body := ws' |} in
+          SList [SBytes (msg_header m); SBytes (padding 8 (length (msg_header m))); SBytes (msg_body m);
+                 SNum mt; SNum serial; sbool (expect_reply_of m); sbool (auto_start_of m);
+                 SList (map (fun cv => SList [SNum (fst cv); pv_to_sexp (snd cv)]) (recovered_fields fds' m));
+                 sopt (fun l => SList (map pv_to_sexp l)) (recovered_body fds' m)]
+      | _, _, _, _, _ => bad
       end
   | [SNum 3; le; SBytes raw] =>
       match as_bool le with
